@@ -671,6 +671,9 @@ pub struct CheckScript {
     pub reboot_needed: bool,
     /// answers to reboot_allowed during this check's reboot wait, by call; exhausted => true
     pub reboot_allowed: Vec<bool>,
+    /// The installer hands its LAST progress value over (creates the report future and polls it once)
+    /// but does not wait for the observer before finishing.
+    pub detach_last_progress: bool,
 }
 impl Default for CheckScript {
     fn default() -> Self {
@@ -684,6 +687,7 @@ impl Default for CheckScript {
             can_start: UpdDec::Ok,
             reboot_needed: false,
             reboot_allowed: vec![],
+            detach_last_progress: false,
         }
     }
 }
